@@ -265,19 +265,24 @@ func FuzzBTree(f *testing.F) {
 	})
 }
 
-// runIdentity: values with identity (pointers). Every Put stores a fresh pointer whose pointee is
+// runIdentity: values with identity (pointers) held in an interface-typed tree, a quarter of the
+// values being the nil interface (a legitimate value: the key is present, its value is nil). Every Put stores a fresh pointer whose pointee is
 // drawn from {0,1}; Get and Traverse must hand back the very pointer put last (a store skipped
 // because the contents "did not change" keeps the older one).
 func runIdentity(w *core.Worker, c Case) {
-	t := btree.New[int, *int]()
-	model := map[int]*int{}
+	t := btree.New[int, any]()
+	model := map[int]any{}
 	overwrites := 0
 	for i, op := range c.Ops {
 		var p any
 		switch op.K {
 		case "put":
-			v := new(int)
-			*v = (op.Key + i/7) % 2
+			pv := new(int)
+			*pv = (op.Key + i/7) % 2
+			var v any = pv
+			if (op.Key+i)%4 == 0 {
+				v = nil // the nil interface is a value like any other: present, with value nil
+			}
 			p = core.Catch(func() { t.Put(op.Key, v) })
 			if _, ok := model[op.Key]; ok {
 				overwrites++
@@ -295,12 +300,12 @@ func runIdentity(w *core.Worker, c Case) {
 			v, ok := t.Get(k)
 			mv, mok := model[k]
 			if ok != mok || (ok && v != mv) {
-				w.Violation("btree.identity-get", fmt.Sprintf("pointer values, after step %d (%+v): Get(%d) = (%p, %v), the pointer put last is %p (present=%v)", i, op, k, v, ok, mv, mok))
+				w.Violation("btree.identity-get", fmt.Sprintf("pointer values, after step %d (%+v): Get(%d) = (%v, %v), the pointer put last is %v (present=%v)", i, op, k, v, ok, mv, mok))
 				return
 			}
 		}
 		n, bad := 0, false
-		t.Traverse(func(k int, v *int) {
+		t.Traverse(func(k int, v any) {
 			n++
 			if mv, ok := model[k]; !ok || mv != v {
 				bad = true
